@@ -20,17 +20,17 @@ import (
 
 // k2Batch is one scratch package with many converters that is generated, compiled and executed.
 type k2Batch struct {
-	Tag      string
-	Types    string            // Go source of the type declarations (without package clause)
-	Convs    map[string]string // converter name -> source text
-	Order    []string
-	Extra    string // further package-level code (custom functions)
-	Global   []string
-	FailOn   [][2]string // (function, payload) pairs that make fallible custom functions fail
-	ValModes int         // number of values per method
-	Share    int
-	Race     bool
-	Spec     string // "structural": ask the driver to compare with Gv.Spec.specMap
+	Tag         string
+	Types       string            // Go source of the type declarations (without package clause)
+	Convs       map[string]string // converter name -> source text
+	Order       []string
+	Extra       string // further package-level code (custom functions)
+	Global      []string
+	FailOn      [][2]string // (function, payload) pairs that make fallible custom functions fail
+	ValModes    int         // number of values per method
+	Share       int
+	Race        bool
+	Spec        string // "structural": ask the driver to compare with Gv.Spec.specMap
 	Pkgs        map[string]string
 	TypeImports []string
 	ConvAnchors []string
@@ -201,8 +201,16 @@ func runK2(e *env, name string, batches []*k2Batch) (*k2Result, error) {
 					if !ex.Methods[key] {
 						continue
 					}
-					for vi := 0; vi < kb.ValModes; vi++ {
+					// batches with fallible functions get three more values per method with exactly one poisoned leaf each
+					extra := 0
+					if len(kb.FailOn) > 0 {
+						extra = 3
+					}
+					for vi := 0; vi < kb.ValModes+extra; vi++ {
 						vg := &k2.ValGen{R: r.Fork(uint64(vi)), Mode: vi, Share: kb.Share}
+						if vi >= kb.ValModes {
+							vg.Mode, vg.Single = 5, true
+						}
 						if kb.ValuesByMethodName {
 							h := uint64(14695981039346656037)
 							inst := strings.TrimSuffix(strings.TrimSuffix(k2.ConvKey(oc), "On"), "Off")
@@ -226,10 +234,18 @@ func runK2(e *env, name string, batches []*k2Batch) (*k2Result, error) {
 								v = vg.Value(a.Type.T)
 							}
 							vg.Mode = vi
+							if vg.Single {
+								vg.Mode = 5
+							}
 							if string(a.Use) == "target" {
 								vg.ForgetCells()
 							}
 							args = append(args, v)
+						}
+						if vg.Single {
+							vg.PoisonOne(vg.R.Intn(1 << 20))
+						}
+						for _, v := range args {
 							argStrs = append(argStrs, v.String())
 						}
 						lines = append(lines, sx.H("call", append([]*sx.Node{sx.S(key)}, args...)...).String())
@@ -304,6 +320,11 @@ func runK2(e *env, name string, batches []*k2Batch) (*k2Result, error) {
 	wg.Wait()
 	if firstErr != nil {
 		return nil, firstErr
+	}
+	// the families and type generators are written to stay inside the modelled fragment: a batch run in which a quarter of the
+	// converters is skipped as unsupported is a collapse of coverage (it happened silently once: struct tags), not a pass
+	if tot := res.Generated + res.Unsupported; tot >= 8 && res.Unsupported*4 > tot {
+		return nil, fmt.Errorf("%s: %d of %d generated converters are outside the modelled fragment (translator reports unsupported constructs): coverage collapse", name, res.Unsupported, tot)
 	}
 	if res.MapOrderTried > 0 {
 		e.rep.Note("%s: %d failing calls where implementation and model first disagreed and an argument holds a map with several entries (Go's iteration order is unspecified): re-run on the other iteration orders in the model, %d agree under one of them, the others are reported", name, res.MapOrderTried, res.MapOrderResolved)
